@@ -21,7 +21,11 @@ FACTOR = {"": F(1), "px": F(1), "in": F(96), "mm": F(96) / F("25.4"), "cm": F(96
           "pt": F(96, 72), "pc": F(16), "Q": F(96) / F("101.6"), "q": F(96) / F("101.6")}
 UNSUPPORTED = ["em", "ex", "rem", "vw", "ch", "deg", "PX", "Mm", "IN", "vmin", "px2", "p x"]
 EXTRA_NUMERALS = ["12.5", "1e3", "-1.5e-2", ".5", "5.", "96", "25.4", "1e-7", "123456.789",
-                  "0", "-0", "1E2", "+7"]
+                  "0", "-0", "1E2", "+7",
+                  # long numerals (a fixed-width field, a digit counter, a regex with a bound)
+                  "0" * 40 + "1.5" + "0" * 40, "1234567890123456789012345678901234567890",
+                  "-0.0000000000000000000000000000000000000125", "1" + "0" * 30 + "e-28",
+                  "9" * 17 + "." + "9" * 17, "1e+3", "2.5E+2", "1.e1", "+.5e+1", "1e-300", "1e300"]
 SPACES = [("", ""), (" ", ""), ("", " "), ("\t ", " \n"), ("", "")]
 REF = 250.0
 READER_REFS = (REF, 1, 0, 0.0, 1056.0)    # references handed to the attribute reader for %
